@@ -65,4 +65,57 @@ def fileAbs {S K V : Type} (abs : S → RefDict K V) : Option S → RefDict K V
   | none => []
   | some s => abs s
 
+/-! ### the real object, operation by operation (with the residue), and `ID3` as a tag store -/
+
+section fileStep
+variable {S K V : Type} (m : MapImpl S K V) (fresh : Except PyErr S)
+
+/-- `file.update(pairs)`: as `DictMixin.update`, the first raising pair leaves `fileSetResidue` -/
+def fileUpdateFull : List (K × V) → Option S → Except PyErr Unit × Option S
+  | [], s => (.ok (), s)
+  | (k, v) :: l, s =>
+    match (fileImpl m fresh).setitem s k v with
+    | .ok s' => fileUpdateFull l s'
+    | .error e => (.error e, fileSetResidue fresh s)
+
+/-- one operation on the real file object: `DictMixin` over the four forwarded primitives, a
+raising `__setitem__` (set / setdefault / update) leaves the tags `add_tags()` has made -/
+def fileStep (s : Option S) : Op K V → Out K V × Option S
+  | .set k v =>
+    match (fileImpl m fresh).setitem s k v with
+    | .ok s' => (.unit, s')
+    | .error e => (.err e, fileSetResidue fresh s)
+  | .update l => (outOf (fun _ => .unit) (fileUpdateFull m fresh l s).1, (fileUpdateFull m fresh l s).2)
+  | .setdefault k d =>
+    match (fileImpl m fresh).getitem s k with
+    | .ok v => (.val v, s)
+    | .error e =>
+      if e = .key then
+        match (fileImpl m fresh).setitem s k d with
+        | .ok s' => (.val d, s')
+        | .error e' => (.err e', fileSetResidue fresh s)
+      else (.err e, s)
+  | op => (fileImpl m fresh).step s op
+
+end fileStep
+
+/-- a frame object, as far as the dictionary interface of `ID3` cares: an opaque token (the
+harness names every frame it makes; `255` is no ASF type) -/
+def isFrameTok : PVal → Bool
+  | .item (.asf 255 _) => true
+  | _ => false
+
+/-- `ID3Tags` (`DictProxy` + `if not isinstance(tag, Frame): raise TypeError` in `__setitem__`);
+keys are whatever hashes (open finding id3-nonstr-keys), an unhashable key is a `TypeError` -/
+def id3TagImpl : MapImpl (RefDict PKey PVal) PKey PVal where
+  keys s := keysOf s
+  getitem s k := if k.hashable then lookupE k s else .error .type_
+  setitem s k v := if isFrameTok v && k.hashable then .ok (insert k v s) else .error .type_
+  delitem s k :=
+    if k.hashable then
+      match lookup k s with
+      | some _ => .ok (erase k s)
+      | none => .error .key
+    else .error .type_
+
 end Mutagen.Dict
